@@ -300,6 +300,44 @@ def r06e(ctx, run):
                   "line's newline and the snippet code slices that line beyond its length (panic instead of a diagnostic)" % (desc, end_pos, start_pos))
 
 
+def r06g(ctx, run):
+    """a data object is defined once: every create_global_data call names its object freshly (a unique-id generator is part of the name) or is
+    memoised (created only after a lookup of the same name/key missed: a cache map of the compiler, or the module's own name table).  An expression can
+    be compiled more than once (a defer body is emitted on every exit that crosses it), and defining a name twice makes the module panic."""
+    F = ctx.facts
+    n = 0
+    for fn in F.fns:
+        if fn.crate != "codegen":
+            continue
+        for c in fn.calls():
+            if short(c.callee) != "create_global_data" or "FunctionCompiler" not in c.callee:
+                continue
+            n += 1
+            owner = short(strip_generics(fn.path))
+            name = fn.chain_operand(c.args[1], depth=14)
+            fresh = any(nd.get("kind") == "call" and short(nd["callee"]) == "generate_unique_id" for nd in walk_chain(name))
+            if not fresh:
+                # format!(..) hides its arguments from the chain: look for the generator in the same function instead, feeding a format
+                fresh = FA.chain_has_call(name, "format") and any(short(x.callee) == "generate_unique_id" for x in fn.calls())
+            memo = None
+            for d, ch, sides in fn.conditions_of(c.bb, limit=12):
+                calls = [nd for nd in walk_chain(ch) if nd.get("kind") == "call"]
+                if ch.get("kind") == "discr" and any(short(nd["callee"]) in ("get", "get_name", "contains_key", "entry") for nd in calls) and not any(
+                        short(nd["callee"]) == "get" and "comptime_results" in FA.show_chain(nd, 6) for nd in calls):
+                    memo = d
+                    break
+            if fresh:
+                run.ok(c.site(), "%s: the data object's name contains a fresh unique id" % owner)
+            elif memo is not None:
+                run.ok(c.site(), "%s: created only after a lookup missed (bb%d)" % (owner, memo))
+            else:
+                run.finding(strip_generics(fn.path), "data-defined-per-compilation:" + owner, c.file, c.ln,
+                            "%s defines a data object under a name computed from the expression's location, without a fresh id and without looking the name up first: when "
+                            "the expression is compiled twice (a defer body is emitted on every exit that crosses it) the module panics with DuplicateDefinition" % owner)
+    if n < 4:
+        raise LookupError("create_global_data call sites: %d" % n)
+
+
 def r06f(ctx, run):
     """input_snippet is total: evaluated from its source for every shape of (file length, first line, span, lines after the span) that its
     arithmetic distinguishes and for every pair of columns a position can have (0 ..= line length: the position of the newline / end of
@@ -468,6 +506,7 @@ def rules(ctx):
         Rule("R06.b", "every todo!()/unimplemented!() reachable from main is triaged; new reachable sites are violations", 3, r06b),
         Rule("R06.d", "const evaluation sites that panic without a value only see kinds const_data can evaluate (classifier vs evaluator, belief/use)", 3, r06d),
         Rule("R06.e", "the renderer's inclusive end position never precedes the start (empty ranges)", 2, r06e),
+        Rule("R06.g", "a data object is defined once: fresh name or memoised creation at every create_global_data site", 4, r06g),
         Rule("R06.f", "the snippet renderer is total: no unsigned subtraction below zero and no slice beyond a line, for every range shape and column (newline position included)", 1, r06f),
         Rule("R06.c", "no assert that a named global is non-polymorphic while inference admits polymorphic functions as values", 6, r06c),
     ]
